@@ -23,6 +23,7 @@ RULE = (
     "canonical dump; (b) for every k below the number of patch invocations of the case, the k-th get_asm callback "
     "raises: apply() must propagate that exception, ir.cfg must be the caller's CFG object, and what is left behind "
     "must pass the closure part of the validator and the round trip. Distinct by (module, request list, k)"
+    "; code patches that carry aligned data ('jmp over; .align; .long; label'); a committed witness of a block shared by two functions"
 )
 ASSUMPTIONS = [
     "after a failed apply() only closure and serializability are demanded (the property's words); block geometry, addresses and zero-sized blocks are judged only when apply() returns",
